@@ -796,6 +796,12 @@ class ConnInterp:
                 val = self.ev(value, st, f, depth)
                 st.env[tgt.value.id] = self.store(arr, tgt.slice, val, st, f, depth, norm(node))
             return
+        if isinstance(tgt, ast.Attribute) and tgt.attr == "data" and isinstance(tgt.value, ast.Name) and isinstance(st.env.get(tgt.value.id), Src):
+            # v = ds[name]; ...; v.data = conn   : the same sink through a local that stands for the dataset's variable
+            src_ = st.env[tgt.value.id]
+            self.sinks.append((f, node, src_.key if src_.key != "*" else "<conn_name>", self.ev(value, st, f, depth), dict(st.facts)))
+            st.hit += 1
+            return
         if isinstance(tgt, ast.Attribute) and tgt.attr == "data" and isinstance(tgt.value, ast.Subscript):
             # ds[conn_name].data = conn   (UGRID): a sink
             owner = self.ev(tgt.value.value, st, f, depth)
